@@ -36,6 +36,9 @@ Section Lookback.
   Definition lb_input_size : Z := n + lb_k * n + bits + lb_k.
   Definition lb_num_classes : Z := n + lb_k.
 
+  (* default_event_label: encode_event(default_event) *)
+  Definition lb_default_label : option Z := enc dflt.
+
   (* reversed(list(enumerate(self._lookback_distances))) *)
   Definition lb_rev_enum : list (Z * Z) := rev (enumerate dists).
 
